@@ -993,8 +993,10 @@ func processValue(fset *token.FileSet, info *types.Info, call *ast.CallExpr) (*V
 				return false
 			}
 		case *ast.CallExpr:
-			// Only acceptable if it's a type conversion.
-			if _, isFunc := info.TypeOf(expr.Fun).(*types.Signature); isFunc {
+			// Only acceptable if it's a type conversion. (A variable of a named
+			// function type is not a *types.Signature either, so ask whether the
+			// callee denotes a type.)
+			if tv, found := info.Types[expr.Fun]; !found || !tv.IsType() {
 				ok = false
 				return false
 			}
